@@ -365,13 +365,24 @@ func (g *Gen) SameWeightValue(w uint64) []byte {
 
 // Upd calls t.Update with caller-owned copies of key and value and overwrites both buffers after the call returned:
 // key and value belong to the caller, nothing the trie keeps may point into them.
+var updCalls int // per worker process; every fifth insert goes through Put, every fifth delete through Delete
+
 func Upd(t *wmpt.WeightedMerkleTrie, k, v []byte, w uint64) error {
 	kb := append([]byte(nil), k...)
 	var vb []byte
 	if len(v) > 0 {
 		vb = append([]byte(nil), v...)
 	}
-	err := t.Update(kb, vb, w)
+	var err error
+	updCalls++
+	switch {
+	case len(vb) > 0 && len(kb) == 32 && updCalls%5 == 0 && t.GetRoot() != nil:
+		err = t.Put(kb, vb, w) // the second insert entry point
+	case len(vb) == 0 && len(kb) == 32 && updCalls%5 == 1 && t.GetRoot() != nil:
+		_, err = t.Delete(kb) // the second delete entry point
+	default:
+		err = t.Update(kb, vb, w)
+	}
 	for i := range kb {
 		kb[i] ^= 0xa5
 	}
